@@ -15,7 +15,7 @@ APPL = {"Source": ["io", "po", "pl"], "PLoad": ["vi", "ii", "tr", "tp"], "ILoad"
         "RLoad": ["vi", "ii", "pi", "tr", "tp"], "Converter": ["vi", "vo", "ii", "io", "pi", "po", "pl", "tr", "tp"]}
 DEFAULT = {k: [0.0, 1.0e6] for k in KEYS}
 DEFAULT["tp"] = [-1.0e6, 1.0e6]
-PLACE = ["inside", "on-min", "on-max", "below-min", "above-max"]
+PLACE = ["inside", "on-min", "on-max", "below-min", "above-max", "reversed"]
 
 
 def quantities(row, ta):
@@ -50,13 +50,13 @@ def place(key, x, how, neg):
     if key == "tp":
         w = max(1.0, abs(x))
         return {"inside": [x - w, x + w], "on-min": [x, x + w], "on-max": [x - w, x], "below-min": [x + 1e-6 * w, x + w],
-                "above-max": [x - w, x - 1e-6 * w]}[how]
+                "above-max": [x - w, x - 1e-6 * w], "reversed": [x + w, x - w]}[how]
     a = abs(x)
     if a == 0.0:
-        lim = {"inside": [0.0, 1.0], "on-min": [0.0, 1.0], "on-max": [0.0, 0.0], "below-min": [1e-9, 1.0], "above-max": None}[how]
+        lim = {"inside": [0.0, 1.0], "on-min": [0.0, 1.0], "on-max": [0.0, 0.0], "below-min": [1e-9, 1.0], "above-max": None, "reversed": [1.0, 0.0]}[how]
     else:
         lim = {"inside": [0.5 * a, 2 * a], "on-min": [a, 2 * a], "on-max": [0.5 * a, a], "below-min": [a * (1 + 1e-6), 2 * a],
-               "above-max": [0.5 * a, a * (1 - 1e-6)]}[how]
+               "above-max": [0.5 * a, a * (1 - 1e-6)], "reversed": [2 * a, 0.5 * a]}[how]   # reversed: [max, min] as given is compared as given
     if lim is None:
         return None
     return [-lim[0], -lim[1]] if neg else lim
@@ -105,6 +105,15 @@ def check_case(case):
                 res.v(("C09.default-limits-warn", d[n]["k"]), "%s warns %r without limits" % (n, obs0[(ph, n)]["Warnings"]))
     q0 = {(ph, n): quantities(obs0[(ph, n)], ta) for ph in phases for n in d}
     targets = [case["target"]] if case.get("target") else list(d)
+    if case.get("who"):  # also every component BELOW the configured one: unpowered while it sleeps, but its own limits still apply
+        below, grow = [], True
+        while grow:
+            grow = False
+            for n in d:
+                if n not in below and n != case["who"] and any(p == case["who"] or p in below for p in d[n]["parents"]):
+                    below.append(n)
+                    grow = True
+        targets = targets + below
     pairs = case.get("pairs", False)
     for n in targets:
         keysets = [(k,) for k in KEYS] if not pairs else list(itertools.combinations(KEYS, 2))
@@ -177,8 +186,8 @@ def main(tier):
     run.map(check_case, gen_cases(tier), chunk=2, family="limits")
     run.require(run.stats["flips"] > 1000 and run.stats["rollups"] > 100, "too few flipping placements / subsystem roll-ups")
     return run.finish(
-        rule="E1-limit: every tree of the mid alphabet n<=2 (3 thorough), both polarities, ta in {25,-40}; for every component x each of the 10 limit keys x 5 placements of "
-             "[min,max] relative to the value reported by a first solve() (inside, exactly on min, exactly on max, just below min, just above max) x positive/negative limit form; "
+        rule="E1-limit: every tree of the mid alphabet n<=2 (3 thorough), both polarities, ta in {25,-40}; for every component x each of the 10 limit keys x 6 placements of "
+             "[min,max] relative to the value reported by a first solve() (inside, exactly on min, exactly on max, just below min, just above max, [max,min] reversed) x positive/negative limit form; "
              "pairs of keys; a phase family in which the target is configured for one phase only; two-source systems for the Subsystem roll-up. "
              "evaluations = solve() calls with a limit placed. non-trivial = a case in which some placement made the expected token set non-empty.",
         assumptions=["limits compared by magnitude on both value and [min,max] (tp signed)", "a quantity of exactly 0 cannot be pushed above a magnitude maximum (placement skipped)",
